@@ -353,10 +353,16 @@ func (m *Machine) callSSA(caller *frame, fn *ssa.Function, args []Value, env []V
 		fi.intrChecked = true
 		fi.intr = m.lookupIntrinsic(fn)
 	}
-	g := m.cur
 	if fi.intr != nil {
 		return fi.intr(m, caller, args)
 	}
+	return m.execSSA(caller, fn, args, env)
+}
+
+// execSSA interprets the body of fn (no intrinsic lookup).
+func (m *Machine) execSSA(caller *frame, fn *ssa.Function, args []Value, env []Value) Value {
+	fi := m.info(fn)
+	g := m.cur
 	if fn.Pkg != nil && fn.Name() == "init" && fn.Signature.Recv() == nil && fn.Parent() == nil && fn == fn.Pkg.Func("init") {
 		if m.initDone[fn.Pkg] {
 			return nil
